@@ -8,7 +8,7 @@
     ([all_fixed]: the tree the check runs against; [pinned]: the tree as found).
     Spec (Val/CoerceSpec.v): [conforms], [ref_coerce] (RefCoerce), [ref_request]. *)
 From Coq Require Import List NArith ZArith Bool.
-From ApiFu Require Import Base.Sexp Val.Values Val.CoerceModel Val.CoerceSpec Val.CoerceProofs Val.CoerceRefine Val.CoerceRoutes Val.CoerceTotal.
+From ApiFu Require Import Base.Sexp Val.Values Val.CoerceModel Val.CoerceSpec Val.CoerceProofs Val.CoerceReasons Val.CoerceRefine Val.CoerceRoutes Val.CoerceTotal Val.CoerceComplete.
 Import ListNotations.
 
 (** Hypotheses, all true of the real system and checked on every case of the correspondence:
@@ -201,14 +201,60 @@ Theorem C05_ref_nn_insensitive : forall E dt tr v t1 t2 w1 w2 g1 g2,
   ref_coerce E dt tr v t1 w1 = Some g1 -> ref_coerce E dt tr v t2 w2 = Some g2 -> g1 = g2.
 Proof. exact ref_nn_insensitive. Qed.
 
-(** static_dynamic_agree (partial).  Full statement: if [static_ok] holds and
-    [coerce_variable_values] succeeds, then [coerce_argument_values] fails only for a reason that
-    lives in the runtime variable values (a null value at a non-null position, a variable without
-    a value inside a list literal) or in an InputCoercion hook that refuses.  Proved here: the
-    part that matters for C05, namely that whatever passes both checks is the reference coercion
-    and conforms ([C05_request_refines], [C05_args_conform]).  Not proved: that nothing else can
-    fail at run time (completeness of validateCoercion w.r.t. coerceLiteral); the correspondence
-    check counts these cases (class argument-error) and the oracle checks each against Ref. *)
+(** ** static_dynamic_agree: the static rules (validateCoercion, validateVariableUsage,
+    validateArguments) are complete for the run-time coercion.  Once a document has passed
+    validation, the ONLY reasons for a run-time coercion error are
+    [bad_variable_value]: a raw variable value that does not coerce to the variable's type, or a
+      non-null variable without value and default (CoerceVariableValues);
+    [null_variable vv args]: a variable used by the arguments whose run-time value is null;
+    [absent_item_variable vv args]: a variable without run-time value standing as an item of a list
+      literal ([item_vars]);
+    [refusing_hook E]: an InputCoercion hook of the schema that returns an error.
+    [runtime_reason] is their disjunction.  In particular no literal, no default value and no
+    type mismatch is left to fail at run time. *)
+Theorem C05_static_dynamic_agree : forall E dt site argdefs defs args raw,
+  schema_ok E argdefs -> request_ok defs raw ->
+  run_request all_fixed E dt site argdefs defs args raw = ORuntimeError ->
+  runtime_reason E dt defs args raw = true.
+Proof. exact static_dynamic_agree. Qed.
+
+(** the two halves: CoerceArgumentValues after a successful CoerceVariableValues ... *)
+Theorem C05_argument_values_complete : forall E dt, env_ok E = true -> forall site argdefs defs args raw vv,
+  has_dup (map fst argdefs) = false ->
+  (forall def dflt, In def defs -> vd_default def = Some dflt -> lit_vars dflt = []) ->
+  (forall p, In p raw -> jval_ok (snd p) = true) ->
+  static_ok all_fixed E dt site argdefs defs args = true ->
+  coerce_variable_values all_fixed E dt defs raw = Ok vv ->
+  coerce_argument_values all_fixed E dt argdefs args vv = Err ->
+  null_variable vv args || absent_item_variable vv args || refusing_hook E = true.
+Proof. exact argument_values_complete. Qed.
+
+(** ... and CoerceVariableValues itself: a validated default value never fails to coerce *)
+Theorem C05_variable_values_complete : forall E dt, env_ok E = true -> forall site argdefs defs args raw,
+  (forall def dflt, In def defs -> vd_default def = Some dflt -> lit_vars dflt = []) ->
+  static_ok all_fixed E dt site argdefs defs args = true ->
+  coerce_variable_values all_fixed E dt defs raw = Err ->
+  bad_variable_value all_fixed E dt defs raw || refusing_hook E = true.
+Proof. exact variable_values_complete. Qed.
+
+(** a converse: the second reason is always fatal (a variable without a run-time value as an item
+    of a list literal never coerces, whatever the types; graphql-js would make the item null) *)
+Theorem C05_absent_item_variable_is_error : forall E dt site argdefs defs args vv,
+  static_ok all_fixed E dt site argdefs defs args = true ->
+  absent_item_variable vv args = true ->
+  forall m, coerce_argument_values all_fixed E dt argdefs args vv <> Ok m.
+Proof. exact absent_item_variable_is_error. Qed.
+
+(** together with no-panic: on a closed schema a validated request without any of the run-time
+    reasons IS served, and with the reference coercion *)
+Theorem C05_served_unless_runtime_reason : forall E dt site argdefs defs args raw,
+  schema_ok E argdefs -> request_ok defs raw -> env_closed E = true ->
+  (forall ad, In ad argdefs -> sty_closed E (in_type (snd ad)) = true) ->
+  static_ok all_fixed E dt site argdefs defs args = true ->
+  runtime_reason E dt defs args raw = false ->
+  exists m, run_request all_fixed E dt site argdefs defs args raw = OCalled m /\
+            ref_request E dt argdefs defs args raw = Some m.
+Proof. exact served_unless_runtime_reason. Qed.
 
 (** the repaired defects: the same statements are false of the code as found *)
 Theorem C05_args_conform_refuted_before_fix :
@@ -255,6 +301,11 @@ Print Assumptions C05_reject_no_call.
 Print Assumptions C05_reference_is_served.
 Print Assumptions C05_request_no_panic.
 Print Assumptions C05_request_exact.
+Print Assumptions C05_static_dynamic_agree.
+Print Assumptions C05_argument_values_complete.
+Print Assumptions C05_variable_values_complete.
+Print Assumptions C05_absent_item_variable_is_error.
+Print Assumptions C05_served_unless_runtime_reason.
 Print Assumptions C05_route_independent.
 Print Assumptions C05_validator_types_differ_in_non_null_only.
 Print Assumptions C05_route_nested.
